@@ -100,8 +100,8 @@ var dBodies = []dBody{
 		Src: map[string]string{nFB: `return false`},
 		Ret: map[string]dReturn{nFB: {Scalar: true, Vals: []interface{}{false}}}},
 	{Name: "convertible",
-		Src: map[string]string{nF1: `return 2.5`, nFV: `return [2.5, nil]`, nF2: `return [2.5, 66]`, nF0: `return 5`},
-		Ret: map[string]dReturn{nF1: {Scalar: true, Vals: []interface{}{2.5}}, nFV: {Vals: []interface{}{2.5, nil}}, nF2: {Vals: []interface{}{2.5, int64(66)}}, nF0: {Scalar: true, Vals: []interface{}{int64(5)}}}},
+		Src: map[string]string{nF1: `return 2.5`, nFV: `return [2.5, nil]`, nF2: `return [2.5, 66]`},
+		Ret: map[string]dReturn{nF1: {Scalar: true, Vals: []interface{}{2.5}}, nFV: {Vals: []interface{}{2.5, nil}}, nF2: {Vals: []interface{}{2.5, int64(66)}}}},
 	{Name: "unconvertible",
 		Src: map[string]string{nF1: `return "s"`, nFV: `return [1, "x"]`, nF2: `return ["t", 1]`, nFB: `return 1`},
 		Ret: map[string]dReturn{nF1: {Scalar: true, Vals: []interface{}{"s"}}, nFV: {Vals: []interface{}{int64(1), "x"}}, nF2: {Vals: []interface{}{"t", int64(1)}}, nFB: {Scalar: true, Vals: []interface{}{int64(1)}}}},
